@@ -60,7 +60,8 @@ Proof.
     exists (k1 + k2). split; [lia|]. intro g. simpl. rewrite G1, G2, T1. now rewrite advance_add.
   - simpl. destruct (decide I t (hist w)); [apply (IHsk1 _ _ _ _ _ H) | apply (IHsk2 _ _ _ _ _ H)].
   - simpl. eapply loop_agrees; eauto.
-  - exists 1. destruct p as [|s|g0|]; simpl in H; inversion H; subst; simpl; (split; [lia|]); intro g; reflexivity.
+  - exists 1. destruct p as [|s|g0|]; simpl in H; try (destruct (seed_ok s) eqn:Es); inversion H; subst; simpl;
+      try rewrite Es; (split; [simpl; lia|]); intro g; reflexivity.
   - destruct c as [[|h]|]; try discriminate; inversion H; subst; exists 1; simpl.
     + rewrite draw_obj_ticks. simpl. split; [lia|]. reflexivity.
     + split; [lia|]. reflexivity.
@@ -91,7 +92,7 @@ Lemma grows_fail : forall w, grows w (failL gstate value w).
 Proof. intro w. split; exists []; reflexivity. Qed.
 
 Lemma grows_crs : forall p w, grows w (snd (crs p w)).
-Proof. intros [] w; simpl; split; exists []; reflexivity. Qed.
+Proof. intros [] w; simpl; try (destruct (seed_ok s)); split; exists []; reflexivity. Qed.
 
 Lemma grows_draw_obj : forall I t h w, grows w (dobj I t h w).
 Proof.
@@ -141,6 +142,64 @@ Qed.
 
 Lemma grows_in : forall w w' x, grows w w' -> In x (srcs w) -> In x (srcs w').
 Proof. intros w w' x [[l H] _] Hin. rewrite H. apply in_or_app. now right. Qed.
+
+(* ---------------------------------------------------------------- errors persist; out-of-range seeds are rejected *)
+Lemma failed_draw_obj : forall I t h (w : lworld), failed w = true -> failed (dobj I t h w) = true.
+Proof. intros. unfold draw_obj. destruct (nth_error (heap w) h); [|reflexivity]. destruct (draw _ g). exact H. Qed.
+
+Lemma failed_draw_glob : forall I t (w : lworld) g, failed w = true -> failed (fst (dglob I t w g)) = true.
+Proof. intros. unfold draw_glob. destruct (draw _ g). exact H. Qed.
+
+Lemma failed_crs : forall p (w : lworld), failed w = true -> failed (snd (crs p w)) = true.
+Proof. intros [] w H; simpl; try (destruct (seed_ok s)); auto. Qed.
+
+Lemma loop_failed : forall env (I : interp) body p t,
+  (forall c w g, failed w = true -> failed (wof (runG env I body p c w g)) = true) ->
+  forall n i c w g, failed w = true -> failed (wof (loopGG (runG env I body p) (stop I t) n i c w g)) = true.
+Proof.
+  intros env I body p t Hb. induction n; intros i c w g H; simpl; auto.
+  destruct (stop I t i (hist w)); auto.
+  specialize (Hb c w g H). destruct (runG env I body p c w g) as [[c1 w1] g1]. apply IHn. exact Hb.
+Qed.
+
+Lemma run_failed_mono : forall env (I : interp) sk p c w g, failed w = true -> failed (wof (runG env I sk p c w g)) = true.
+Proof.
+  intros env I. induction sk; intros p c w g H; simpl; auto.
+  - specialize (IHsk1 p c w g H). destruct (runG env I sk1 p c w g) as [[c1 w1] g1]. apply IHsk2. exact IHsk1.
+  - destruct (decide I t (hist w)); auto.
+  - apply loop_failed; auto.
+  - destruct (crs p (tickL gstate value w)) as [c1 w1] eqn:E. unfold wof. simpl.
+    pose proof (failed_crs p (tickL gstate value w) H) as F. now rewrite E in F.
+  - destruct c as [[|h]|]; unfold wof; simpl; auto.
+    + destruct (dglob I t (tickL gstate value w) (env (ticks w) g)) as [w1 g1] eqn:E. simpl.
+      pose proof (failed_draw_glob I t (tickL gstate value w) (env (ticks w) g) H) as F. now rewrite E in F.
+    + apply failed_draw_obj. exact H.
+  - destruct (dglob I t (tickL gstate value w) (env (ticks w) g)) as [w1 g1] eqn:E. unfold wof. simpl.
+    pose proof (failed_draw_glob I t (tickL gstate value w) (env (ticks w) g) H) as F. now rewrite E in F.
+  - specialize (IHsk (eval_arg a p c) None w g H). destruct (runG env I sk (eval_arg a p c) None w g) as [[c1 w1] g1]. exact IHsk.
+Qed.
+
+Lemma must_check_fails : forall env (I : interp) sk, must_check sk = true ->
+  forall s c w g, seed_ok s = false -> failed (wof (runG env I sk (VInt s) c w g)) = true.
+Proof.
+  intros env I. induction sk; intros M s c w g Hs; simpl in M; try discriminate.
+  - simpl. apply orb_true_iff in M as [M|M].
+    + specialize (IHsk1 M s c w g Hs). destruct (runG env I sk1 (VInt s) c w g) as [[c1 w1] g1].
+      apply run_failed_mono. exact IHsk1.
+    + destruct (runG env I sk1 (VInt s) c w g) as [[c1 w1] g1]. apply IHsk2; auto.
+  - apply andb_true_iff in M as [M1 M2]. simpl. destruct (decide I t (hist w)); auto.
+  - simpl. rewrite Hs. reflexivity.
+  - destruct a; try discriminate. simpl.
+    specialize (IHsk M s None w g Hs). destruct (runG env I sk (VInt s) None w g) as [[c1 w1] g1]. exact IHsk.
+Qed.
+
+Theorem invalid_seed_rejected : forall (I : interp) sk s, must_check sk = true -> seed_ok s = false ->
+  forall env g, o_failed (fst (callG env I sk (HInt s) g)) = true.
+Proof.
+  intros I sk s M Hs env g. unfold call. change (param0 gstate (HInt s)) with (VInt s).
+  pose proof (must_check_fails env I sk M s None (w0 gstate value (HInt s)) g Hs) as F.
+  destruct (runG env I sk (VInt s) None (w0 gstate value (HInt s)) g) as [[c1 w1] g1]. exact F.
+Qed.
 
 (* ---------------------------------------------------------------- run_local undefined => a global draw is logged *)
 Definition logs_global (env : nat -> gstate -> gstate) (I : interp) (sk : skel) : Prop :=
@@ -385,7 +444,7 @@ Proof.
   - inversion H; subst. simpl.
     exists (fst (check_random_state gstate value seed p (tickL gstate value w))), (snd (check_random_state gstate value seed p (tickL gstate value w))).
     split; [now rewrite <- surjective_pairing|].
-    destruct p as [|s|[|h]|]; simpl in *; auto.
+    destruct p as [|s|[|h]|]; simpl in *; try (destruct (seed_ok s)); simpl; auto.
   - destruct C; [|discriminate]. inversion H; subst. simpl.
     destruct c as [[|h]|]; simpl in Hc; try discriminate; eauto.
   - discriminate.
@@ -446,7 +505,8 @@ Proof.
   - destruct c; try discriminate. inversion H; subst. reflexivity.
   - discriminate.
   - destruct (gf sk (aarg a p c) AUnset) as [c1|] eqn:E1; [|discriminate]. inversion H; subst.
-    assert (X : wp (aarg a p c') = warg a (wp p) (wc c')) by (destruct a; simpl; auto; destruct c'; reflexivity).
+    assert (X : wp (aarg a p c') = warg a (wp p) (wc c')).
+    { destruct a; simpl; auto; [destruct c'; reflexivity | destruct (seed_ok s); reflexivity]. }
     rewrite <- X. change WSafe with (wc AUnset). now rewrite (IHsk _ _ _ E1).
 Qed.
 
@@ -505,6 +565,59 @@ Proof.
       * specialize (IH g (insts ++ [seed s']) i ip sk a o Hn Hc). destruct (runH h g _) as [[os g2] i2]. exact IH.
 Qed.
 
+(* int-seeded calls of global-free entry points (ANY int: an out-of-range seed makes the call fail, reproducibly) *)
+Lemma call_int_gf : forall (ip : interp) sk s, global_free sk PInt = true ->
+  exists o k, callL ip sk (HInt s) = Some o /\ forall env g, callG env ip sk (HInt s) g = (o, advance gstate env 0 k g).
+Proof.
+  intros ip sk s Hg.
+  destruct (gfw_call gstate value req draw seed ip sk (HInt s) (global_free_gfw sk Hg) eq_refl) as (o & k & L & _ & G).
+  exists o, k. auto.
+Qed.
+
+Lemma erasable_call : forall (ip : interp) sk a, erasable gstate value req (ECall ip sk a) = true ->
+  exists s, a = RInt s /\ global_free sk PInt = true.
+Proof. intros ip sk [] H; simpl in H; try discriminate. eauto. Qed.
+
+Theorem history_results : forall (h : list event) g insts i (ip : interp) sk s,
+  nth_error h i = Some (ECall ip sk (RInt s)) -> global_free sk PInt = true ->
+  nth_error (fst (fst (runH h g insts))) i = Some (callL ip sk (HInt s)).
+Proof.
+  induction h as [|e h IH]; intros g insts i ip sk s Hn Hg.
+  - destruct i; discriminate.
+  - destruct i; simpl in Hn.
+    + inversion Hn; subst. simpl.
+      destruct (call_int_gf ip sk s Hg) as (o & k & L & G).
+      rewrite G. rewrite L.
+      destruct (runH h _ _) as [[os g2] i2]. reflexivity.
+    + destruct e as [ip' sk' a'|f|s']; simpl.
+      * destruct (callG _ ip' sk' (resolve gstate a' insts) g) as [o g1].
+        specialize (IH g1 (writeback gstate value a' o insts) i ip sk s Hn Hg).
+        destruct (runH h g1 _) as [[os g2] i2]. exact IH.
+      * specialize (IH (f g) insts i ip sk s Hn Hg). destruct (runH h (f g) insts) as [[os g2] i2]. exact IH.
+      * specialize (IH g (insts ++ [seed s']) i ip sk s Hn Hg). destruct (runH h g _) as [[os g2] i2]. exact IH.
+Qed.
+
+Theorem history_global : forall (h : list event) g insts,
+  snd (fst (runH h g insts)) = snd (fst (runH (erase gstate value req h) g insts)) /\
+  snd (runH h g insts) = snd (runH (erase gstate value req h) g insts).
+Proof.
+  induction h as [|e h IH]; intros g insts; [split; reflexivity|].
+  unfold erase. simpl filter. destruct (erasable gstate value req e) eqn:E; simpl negb; cbv iota.
+  - destruct e as [ip sk a|f|s']; try discriminate.
+    destruct (erasable_call ip sk a E) as (s & -> & Hg).
+    destruct (call_int_gf ip sk s Hg) as (o & k & L & G).
+    simpl. rewrite G. rewrite advance_id. unfold writeback.
+    specialize (IH g insts). destruct (runH h g insts) as [[os g2] i2]. exact IH.
+  - destruct e as [ip sk a|f|s']; simpl.
+    + destruct (callG _ ip sk (resolve gstate a insts) g) as [o g1].
+      specialize (IH g1 (writeback gstate value a o insts)). fold (erase gstate value req h).
+      destruct (runH h g1 _) as [[os g2] i2]. destruct (runH (erase gstate value req h) g1 _) as [[os' g2'] i2']. exact IH.
+    + specialize (IH (f g) insts). fold (erase gstate value req h).
+      destruct (runH h (f g) insts) as [[os g2] i2]. destruct (runH (erase gstate value req h) (f g) insts) as [[os' g2'] i2']. exact IH.
+    + specialize (IH g (insts ++ [seed s'])). fold (erase gstate value req h).
+      destruct (runH h g _) as [[os g2] i2]. destruct (runH (erase gstate value req h) g _) as [[os' g2'] i2']. exact IH.
+Qed.
+
 (* fit twice / call twice: two int-seeded calls of the same global-free entry point with the same arguments and
    the same seed, anywhere in one history, return the same outcome *)
 Theorem history_same_seed_same_result : forall (h : list event) g insts i j (ip : interp) sk s,
@@ -514,8 +627,8 @@ Theorem history_same_seed_same_result : forall (h : list event) g insts i j (ip 
   nth_error (fst (fst (runH h g insts))) i = Some (callL ip sk (HInt s)).
 Proof.
   intros h g insts i j ip sk s Hi Hj Hg.
-  rewrite (history_results gstate value req draw seed h g insts i ip sk s Hi Hg).
-  rewrite (history_results gstate value req draw seed h g insts j ip sk s Hj Hg). split; reflexivity.
+  rewrite (history_results h g insts i ip sk s Hi Hg).
+  rewrite (history_results h g insts j ip sk s Hj Hg). split; reflexivity.
 Qed.
 
 (* ... and the same holds in two DIFFERENT processes (different initial global states, different histories) *)
@@ -525,8 +638,97 @@ Theorem histories_same_seed_same_result : forall (h h' : list event) g g' insts 
   nth_error (fst (fst (runH h g insts))) i = nth_error (fst (fst (runH h' g' insts'))) j.
 Proof.
   intros h h' g g' insts insts' i j ip sk s Hi Hj Hg.
-  rewrite (history_results gstate value req draw seed h g insts i ip sk s Hi Hg).
-  rewrite (history_results gstate value req draw seed h' g' insts' j ip sk s Hj Hg). reflexivity.
+  rewrite (history_results h g insts i ip sk s Hi Hg).
+  rewrite (history_results h' g' insts' j ip sk s Hj Hg). reflexivity.
+Qed.
+
+(* ---------------------------------------------------------------- calls with generator OBJECTS in histories *)
+Definition safe_hrs (a : hrs) : bool := match a with RNone | RGlobObj => false | _ => true end.
+
+Lemma safe_hrs_resolve : forall a insts, safe_hrs a = true -> safe_arg gstate (resolve gstate a insts) = true.
+Proof. intros [] insts H; simpl in *; try discriminate; auto. destruct (nth_error insts k); reflexivity. Qed.
+
+Lemma step_safe_global : forall (ip : interp) sk a g insts,
+  global_free_w sk = true -> safe_arg gstate (resolve gstate a insts) = true ->
+  fst (step (ECall ip sk a) g insts) = g.
+Proof.
+  intros ip sk a g insts Hw Ha. simpl.
+  destruct (gfw_call gstate value req draw seed ip sk _ Hw Ha) as (o & k & _ & _ & G).
+  rewrite G. simpl. unfold idenv. apply advance_id.
+Qed.
+
+(* ANY call -- int seed, caller-owned generator object, junk -- accepted by the join-precise analysis leaves the
+   global generator exactly as it found it, wherever it occurs in a history *)
+Theorem history_step_global_untouched : forall (h : list event) i g insts (ip : interp) sk a,
+  nth_error h i = Some (ECall ip sk a) -> global_free_w sk = true ->
+  safe_arg gstate (resolve gstate a (snd (state_at h i g insts))) = true ->
+  fst (state_at h (S i) g insts) = fst (state_at h i g insts).
+Proof.
+  induction h as [|e h IH]; intros i g insts ip sk a Hn Hw Ha.
+  - destruct i; discriminate.
+  - destruct i.
+    + simpl in Hn. inversion Hn; subst. simpl in Ha.
+      change (state_at (ECall ip sk a :: h) 1 g insts) with
+        (let (g1, insts1) := step (ECall ip sk a) g insts in state_at h 0 g1 insts1).
+      pose proof (step_safe_global ip sk a g insts Hw Ha) as S.
+      destruct (step (ECall ip sk a) g insts) as [g1 insts1]. simpl in S. subst. destruct h; reflexivity.
+    + simpl in Hn.
+      change (state_at (e :: h) (S (S i)) g insts) with (let (g1, insts1) := step e g insts in state_at h (S i) g1 insts1).
+      change (state_at (e :: h) (S i) g insts) with (let (g1, insts1) := step e g insts in state_at h i g1 insts1) in *.
+      destruct (step e g insts) as [g1 insts1]. eapply IH; eauto.
+Qed.
+
+Lemma run_hist_step : forall e (h : list event) g insts,
+  let '(g1, insts1) := step e g insts in
+  snd (fst (runH (e :: h) g insts)) = snd (fst (runH h g1 insts1)) /\ snd (runH (e :: h) g insts) = snd (runH h g1 insts1).
+Proof.
+  intros [ip sk a|f|s'] h g insts; simpl.
+  - destruct (callG _ ip sk (resolve gstate a insts) g) as [o g1]. destruct (runH h g1 _) as [[os g2] i2]. split; reflexivity.
+  - destruct (runH h (f g) insts) as [[os g2] i2]. split; reflexivity.
+  - destruct (runH h g _) as [[os g2] i2]. split; reflexivity.
+Qed.
+
+(* what the rest of the process alone does to the global generator *)
+Fixpoint env_only (h : list event) (g : gstate) : gstate :=
+  match h with [] => g | EEnv f :: r => env_only r (f g) | _ :: r => env_only r g end.
+
+Definition call_safe (e : event) : bool :=
+  match e with ECall _ sk a => global_free_w sk && safe_hrs a | _ => true end.
+
+(* a process all of whose library calls pass an int, a generator object of the caller's or junk to entry points
+   accepted by the analysis: the global generator ends exactly where the other code put it *)
+Theorem history_global_env_only : forall (h : list event) g insts,
+  forallb call_safe h = true -> snd (fst (runH h g insts)) = env_only h g.
+Proof.
+  induction h as [|e h IH]; intros g insts H; [reflexivity|].
+  simpl in H. apply andb_true_iff in H as [He Hh].
+  pose proof (run_hist_step e h g insts) as R.
+  destruct e as [ip sk a|f|s'].
+  - simpl in He. apply andb_true_iff in He as [Hw Ha].
+    pose proof (step_safe_global ip sk a g insts Hw (safe_hrs_resolve a insts Ha)) as S.
+    destruct (step (ECall ip sk a) g insts) as [g1 insts1]. simpl in S. subst g1.
+    destruct R as [R _]. rewrite R. simpl. apply IH. exact Hh.
+  - cbv beta iota delta [step] in R. destruct R as [R _]. rewrite R. simpl. apply IH. exact Hh.
+  - cbv beta iota delta [step] in R. destruct R as [R _]. rewrite R. simpl. apply IH. exact Hh.
+Qed.
+
+(* erasure of int-seeded calls, with the join-precise analysis as the criterion *)
+Definition erasable_w (e : event) : bool := match e with ECall _ sk (RInt _) => global_free_w sk | _ => false end.
+Definition erase_w (h : list event) : list event := filter (fun e => negb (erasable_w e)) h.
+
+Theorem history_global_w : forall (h : list event) g insts,
+  snd (fst (runH h g insts)) = snd (fst (runH (erase_w h) g insts)) /\
+  snd (runH h g insts) = snd (runH (erase_w h) g insts).
+Proof.
+  induction h as [|e h IH]; intros g insts; [split; reflexivity|].
+  unfold erase_w. simpl filter. destruct (erasable_w e) eqn:E; simpl negb; cbv iota; fold (erase_w h).
+  - destruct e as [ip sk a|f|s']; try discriminate. destruct a; try discriminate. simpl in E.
+    destruct (gfw_call gstate value req draw seed ip sk (HInt s) E eq_refl) as (o & k & L & _ & G).
+    simpl. rewrite G. rewrite advance_id. unfold writeback.
+    specialize (IH g insts). destruct (runH h g insts) as [[os g2] i2]. exact IH.
+  - pose proof (run_hist_step e h g insts) as R1. pose proof (run_hist_step e (erase_w h) g insts) as R2.
+    destruct (step e g insts) as [g1 insts1]. destruct R1 as [A1 B1]. destruct R2 as [A2 B2].
+    rewrite A1, B1, A2, B2. apply IH.
 Qed.
 
 End H.
@@ -534,3 +736,21 @@ End H.
 (* ---------------------------------------------------------------- the toy generator *)
 Lemma toy_value_injective : value_injective Z Z nat toy_draw.
 Proof. intros r g g' H. exact H. Qed.
+
+(* ---------------------------------------------------------------- entry points that always reach check_random_state *)
+Fixpoint always_checks (e : ep) : bool :=
+  match e with
+  | E_random_tensor | E_random_cp | E_random_tucker | E_random_tt | E_random_tr | E_random_parafac2
+  | E_range_finder | E_randomized_svd
+  | E_initialize_cp | E_parafac | E_nn_parafac | E_nn_parafac_hals | E_constrained_parafac | E_randomised_parafac
+  | E_sample_khatri_rao | E_parafac2 | E_tr_als | E_tr_als_sampled | E_tt_cross
+  | E_cp_regressor | E_tucker_regressor => true
+  | E_estimator e' => always_checks e'
+  | _ => false
+  end.
+
+Lemma always_checks_must : forall e o, always_checks e = true -> must_check (skeleton e o) = true.
+Proof.
+  induction e; intros o H; simpl in H; try discriminate; try (destruct o; reflexivity).
+  simpl. now apply IHe.
+Qed.
